@@ -111,8 +111,27 @@ func (c *Ctx) CASAdvances(rule, field string, sites []atomicSite) {
 		construct := fmt.Sprintf("cas-advances:%s@%s#%s", field, name, Path(cc.Args[2]))
 		pos := c.P.InstrPos(s.call)
 		old, nw := stripConv(cc.Args[1]), stripConv(cc.Args[2])
-		oldCall, ok := old.(*ssa.Call)
-		if !ok || oldCall.Call.Value == nil || calleeName(&oldCall.Call) != "sync/atomic.Uint64.Load" || Path(oldCall.Call.Args[0]) != Path(cc.Args[0]) {
+		// the expected value is a Load of the same atomic — or a loop variable that is only ever assigned such Loads
+		// (`for cur = x.Load(); new > cur; cur = x.Load() { if x.CompareAndSwap(cur, new) … }`)
+		var isLoadOfSame func(v ssa.Value, d int) bool
+		isLoadOfSame = func(v ssa.Value, d int) bool {
+			switch y := stripConv(v).(type) {
+			case *ssa.Call:
+				return y.Call.Value != nil && calleeName(&y.Call) == "sync/atomic.Uint64.Load" && Path(y.Call.Args[0]) == Path(cc.Args[0])
+			case *ssa.Phi:
+				if d > 2 || len(y.Edges) == 0 {
+					return false
+				}
+				for _, e := range y.Edges {
+					if e != ssa.Value(y) && !isLoadOfSame(e, d+1) {
+						return false
+					}
+				}
+				return true
+			}
+			return false
+		}
+		if !isLoadOfSame(old, 0) {
 			c.add("mono", rule, construct, Violated, pos, fmt.Sprintf("CAS expected-value %s is not the result of a Load of the same atomic (lost-update window)", Path(old)))
 			continue
 		}
